@@ -56,6 +56,7 @@ type poolVal struct {
 type phase struct {
 	name    string
 	relaxed bool // tokens of earlier phases are disabled while it runs
+	sweep   bool // sequential owner detokenize calls at quiescence over tokens maintenance just disabled / enabled back (disabled.go)
 	ops     [][]opSpec
 }
 
@@ -352,6 +353,7 @@ type history struct {
 	fixed     map[string]tval   // consistent key -> token fixed by the first call
 	live      map[string]tval   // (ctx,type,token) -> value, for tokens whose records exist
 	disabledK map[string]bool   // keys / tokens that were disabled by the last disable step
+	reenabled map[string]bool   // keys / tokens that were disabled and then enabled back by the last enable step
 	visits    int64             // metadata visits done by the background visitor
 	dead      bool              // a maintenance effect check failed: the rest of the script is skipped
 	contended map[string]bool   // consistent keys whose first calls overlapped in time
@@ -562,21 +564,31 @@ func runHistory(r *ev.Run, p *plan, ks ksrig.FullKeyStore) {
 			}
 			h.evaluatePhase(it.ph, h.evs[from:])
 			phIdx++
+			if it.ph.relaxed && !h.dead {
+				// quiescent again: every detokenize entry point on a sample of the tokens that are disabled right now
+				h.sweep(phIdx, "disabled-sweep", true, h.disabledK)
+				phIdx++
+			}
 			continue
 		}
 		h.maintenance(it.maint)
+		if it.maint == "enable" && !h.dead {
+			h.sweep(phIdx, "reenabled-sweep", false, h.reenabled)
+			phIdx++
+		}
 	}
 	h.summarize()
 }
 
 // Run is the C10 monitor.
 func Run(r *ev.Run) {
-	r.Rule = "a case is one history: (store kind in {memory,BoltDB} x {plain, encrypting wrapper}) x mode {consistent, random, mixed} x 1-2 token types x value pool (boundary values shared by all 3 client contexts, values unique to one context, fresh values every goroutine tokenizes in the same order) x 2-16 goroutines x per-goroutine op lists over the entry points {Pseudoanonymizer generic/typed, TranslatorService, DataTokenizer text form, TokenEncryptor/TokenProcessor} x a maintenance script (none, status, disable..enable, remove all, disable..remove only disabled, remove only disabled with nothing disabled, dry run, date limits matching nothing/everything, BoltDB close+reopen; through the acra-tokens subcommands in a child process or through the storage visitor); all generated from (seed, history index). Plus a fixed list of decimal boundary texts per integer column, store kind and text entry point. A history is non-trivial when at least one consistent key had two tokenize calls overlapping in logical time and every oracle saw events; distinct = (store kind, mode, types, goroutine class, maintenance kind, via cli/direct, contention seen) tuples of such histories"
+	r.Rule = "a case is one history: (store kind in {memory,BoltDB} x {plain, encrypting wrapper}) x mode {consistent, random, mixed} x 1-2 token types x value pool (boundary values shared by all 3 client contexts, values unique to one context, fresh values every goroutine tokenizes in the same order) x 2-16 goroutines x per-goroutine op lists over the entry points {Pseudoanonymizer generic/typed, TranslatorService, DataTokenizer text form, TokenEncryptor/TokenProcessor} x a maintenance script (none, status, disable..enable, remove all, disable..remove only disabled, remove only disabled with nothing disabled, dry run, date limits matching nothing/everything, BoltDB close+reopen; through the acra-tokens subcommands in a child process or through the storage visitor); all generated from (seed, history index). Plus a fixed list of decimal boundary texts per integer column, store kind and text entry point, and a disabled-token matrix (every boundary value of every type tokenized in both modes on every store kind, all records disabled, every token detokenized through every detokenize entry point, all enabled back, detokenized again; distinct = (store kind, type, entry point) where a token different from its value came back as itself while disabled and as the original afterwards). A history is non-trivial when at least one consistent key had two tokenize calls overlapping in logical time and every oracle saw events; distinct = (store kind, mode, types, goroutine class, maintenance kind, via cli/direct, contention seen) tuples of such histories"
 	r.Assumptions = []string{
 		"crypto library replaced by the pure-Go gothemis stand-in (used by the encrypting token-store wrapper through acrablock); AEAD strength is the stand-in's",
 		"token stores covered: in-memory and BoltDB (go.etcd.io/bbolt file in a scratch directory), each plain and behind storage.WrapStorageWithEncryption(NewSCellEncryptor(keystore)); the Redis token store is NOT covered (no Redis server in the sandbox)",
 		"entry points driven in-process: Pseudoanonymizer (generic and typed methods), DataTokenizer, TokenEncryptor.EncryptWithClientID, TokenProcessor.OnColumn, TranslatorService.Tokenize/Detokenize; acra-tokens status/disable/enable/remove run as real subcommands (Parse+Execute) in a child process on the closed BoltDB file, and as the same visitor actions through TokenStorage.VisitMetadata for in-memory stores; SQL-statement rewriting (query tokenizers) and the wire are other properties' (C04/C19)",
 		"maintenance happens at quiescence (between phases of concurrent calls), as the property text says 'in between'; only a read-only metadata visitor runs concurrently with calls",
+		"a token whose record maintenance disabled is an unknown token for every reader (the stores document ErrTokenDisabled as 'pretend that it's not there'): detokenize must answer with the token itself and no error, and with the original again after enable",
 		"interleavings are whatever the Go scheduler and the race detector's instrumentation produce for 2-16 goroutines released together on the same keys; they are not enumerated",
 		"the store-content oracle recomputes record ids with the documented scheme ('t.'/'h.' + SHA-256 over value, client id, type) and reads them back through TokenStorage.Get; BoltDB files are additionally iterated directly",
 	}
@@ -593,6 +605,11 @@ func Run(r *ev.Run) {
 	// text boundary of integer columns, on every store kind
 	for _, k := range storeKinds {
 		textBoundary(r, k, ks)
+	}
+
+	// disabled tokens answer like unknown ones, enabled back they give the original again: every store kind x type x detokenize entry point
+	for _, k := range storeKinds {
+		disabledMatrix(r, k, ks)
 	}
 
 	// thorough: 2 000 histories (DESIGN planned 5 000; measured cost under -race is ~0.7 CPU-s per BoltDB history, so 5 000 do not fit the 10-minute tier)
@@ -640,6 +657,14 @@ func Run(r *ev.Run) {
 	r.RequireAtLeast("maintenance_steps_via_cli", int64(r.Pick(8, 30)))
 	r.RequireAtLeast("maintenance_steps_direct", int64(r.Pick(40, 400)))
 	r.RequireAtLeast("disabled_phase_tokenize_refused", 5)
+	// disabled tokens: every (store kind, type, detokenize entry point) was observed with a disabled token that differs from its value, and again after enable
+	r.RequireSetAtLeast("disabled_token_judged_distinguishable_store_type_entry", 80)
+	r.RequireSetAtLeast("reenabled_token_judged_store_type_entry", 80)
+	r.RequireAtLeast("disabled_token_detokenize_judged:matrix", 1500)
+	r.RequireAtLeast("reenabled_token_detokenize_judged:matrix", 1500)
+	r.RequireAtLeast("disabled_token_detokenize_judged:sweep", int64(r.Pick(400, 4000)))
+	r.RequireAtLeast("reenabled_token_detokenize_judged:sweep", int64(r.Pick(200, 2000)))
+	r.RequireAtLeast("disabled_token_detokenize_judged:concurrent-calls", int64(r.Pick(15, 150)))
 	r.RequireAtLeast("tokens_survived_partial_removal", 3)
 	r.RequireSetAtLeast("layers_tokenize", 5)
 	r.RequireSetAtLeast("layers_detokenize", 4)
